@@ -105,6 +105,17 @@ func observe(res *model.Result) string {
 		keys = strings.Join(model.SortedKeys(res.Map), ",")
 		if f := res.Map["$first"]; len(f) != 1 {
 			keys += fmt.Sprintf(" $first-len=%d", len(f))
+		} else {
+			// which issue is $first may depend on the visit order, but it is one of the issues of this very map
+			member := false
+			for k, l := range res.Map {
+				for _, is := range l {
+					member = member || (k != "$first" && is == f[0])
+				}
+			}
+			if !member {
+				keys += fmt.Sprintf(" $first-is-foreign(%s at %q)", f[0].Code, f[0].Path)
+			}
 		}
 	}
 	// messages may print the address of a pointer parameter (Slice(Ptr(T)).Contains(&v)): not part of the observation
@@ -255,6 +266,14 @@ func propC07(c c07Case) hh.Verdict {
 			res := calls[op.I].run()
 			if got := observe(res); got != expected[op.I] {
 				return hh.Fail("step %d: call #%d gives a different result after this history than on pristine pools:\n got  %s\n want %s", step, op.I, got, expected[op.I])
+			}
+			// results other callers still hold are theirs: a later call does not reach into them
+			for k, held := range pending {
+				if k != op.I {
+					if now := observe(held); now != expected[k] {
+						return hh.Fail("step %d: the result of call #%d, still held by its caller, changed when call #%d ran:\n now  %s\n was  %s", step, k, op.I, now, expected[k])
+					}
+				}
 			}
 			pending[op.I] = res
 			cs := c.Calls[op.I]
@@ -442,7 +461,7 @@ func seedWitnesses(g *model.Gen, n *model.Node) {
 func TestC07(t *testing.T) {
 	h := hh.Start(t, "C07",
 		"cases = histories over a pool of 3-8 (thorough 4-14) generated calls (schema - a fifth of them test-free with exactly one PostTransform that returns an error -, data as Go value / zjson document / urlencoded body through zhttp, mode, WithCtxValue sets incl. the i18n language key, WithIssueFormatter), executed in random order with interleaved actions: collect an earlier result (Collect per issue / CollectList / CollectMap / Sanitize*AndCollect), force GC (empties the pools), inject dirty recycled objects of every reachable shape into one or all of the seven pools, run a call whose user callback panics (deferred releases run mid-execution); i18n (en, es) installed as global formatter; non-trivial = a call executed after an earlier call that set context values / a formatter / produced issues, after a panicking call, or after a dirty injection; distinct = FNV-1a of the case JSON",
-		"reference = the same call on freshly cleared pools (computed first); after every call the complete observable result - every issue field (code, path, type, message, params deep, value, error text), $first / key set, destination, and the ctx.Get values seen by its callbacks - must equal the reference",
+		"reference = the same call on freshly cleared pools (computed first); results not yet handed back stay as they were while later calls run; after every call the complete observable result - every issue field (code, path, type, message, params deep, value, error text), $first / key set, destination, and the ctx.Get values seen by its callbacks - must equal the reference",
 		"dirty objects are limited to states reachable through zog's own API (PathBuilder element 0 stays empty); collected issues are never inspected afterwards")
 	defer h.Finish()
 	hh.Sub(h, "histories", h.N(3000, 4000), func(rt *rapid.T) c07Case { return genC07(rt, h.Thorough()) }, propC07)
